@@ -168,8 +168,96 @@ impl Circuit<F> for EdwardsCircuit {
                     ctx.expose(&chip, l, c, false)?;
                 }
             }
+            // ---- ladder shapes (part C06_M, vf/edladder.py) ---------------------------------------
+            // Base point: `p.free=1` brings the coordinates in as two plain public inputs through the real
+            // `assign_as_public_input` (no curve constraint: the ladder rows are then the only ECC rows of
+            // the circuit); otherwise through the real `assign` (membership gate + cofactor clearing).
+            // `p.twice=1` runs the operation twice on the SAME assigned inputs and exposes both results
+            // (2-safety product built by the real chip: any accepted assignment with different results is
+            // two accepted results for one input).
+            "mul_const" => {
+                // mul_by_constant(c, P): the constant's bits are fixed cells; c = 8 is clear_cofactor's ladder
+                let c = scalar_of(&s.p_big("c"));
+                let p = ladder_base(&ctx, &chip, l, s)?;
+                let n = if s.p_bool("twice") { 2 } else { 1 };
+                let mut rs = vec![];
+                for _ in 0..n {
+                    rs.push(chip.mul_by_constant(l, c, &p)?);
+                }
+                for r in rs.iter() {
+                    ctx.out_point(&chip, l, r)?;
+                }
+            }
+            "mul_bytes" => {
+                // a variable scalar of 8*nbytes bits, built by the real `scalar_from_le_bytes` from
+                // range-checked input bytes, then `mul` / `msm` / `msm_by_bounded_scalars` (p.via)
+                // (each input is a plain native cell x, exposed; the chip's own `assigned_to_le_bytes(x, 1)`
+                // yields the range-checked byte, so `x < 256` is a consequence of the system)
+                let nbytes = s.p_usize_or("nbytes", 1);
+                let mut bytes: Vec<AssignedByte<F>> = vec![];
+                for _ in 0..nbytes {
+                    let v = ctx.take();
+                    let b: u8 = v.to_u32_digits().first().copied().unwrap_or(0) as u8;
+                    let ax: AssignedNative<F> = chip.native_gadget().assign(l, Value::known(F::from(b as u64)))?;
+                    ctx.expose(&chip, l, &ax, true)?;
+                    let bs: Vec<AssignedByte<F>> = chip.native_gadget().assigned_to_le_bytes(l, &ax, Some(1))?;
+                    bytes.push(bs[0].clone());
+                }
+                let p = ladder_base(&ctx, &chip, l, s)?;
+                let sc: AssignedScalarOfNativeCurve<C> = chip.scalar_from_le_bytes(l, &bytes)?;
+                let n = if s.p_bool("twice") { 2 } else { 1 };
+                let via = s.params.get("via").map(|x| x.as_str()).unwrap_or("mul").to_string();
+                let mut rs = vec![];
+                for _ in 0..n {
+                    let r = match via.as_str() {
+                        "mul" => chip.mul(l, &sc, &p)?,
+                        "msm" => chip.msm(l, &[sc.clone()], &[p.clone()])?,
+                        "bounded" => chip.msm_by_bounded_scalars(l, &[(sc.clone(), 8 * nbytes)], &[p.clone()])?,
+                        v => panic!("unknown via {v}"),
+                    };
+                    rs.push(r);
+                }
+                for r in rs.iter() {
+                    ctx.out_point(&chip, l, r)?;
+                }
+            }
+            "msm_const2" => {
+                // msm of two constant scalars (bits fixed) over two free/assigned bases: two ladders + one add
+                let c0 = scalar_of(&s.p_big("c"));
+                let c1 = scalar_of(&s.p_big("c1"));
+                let p0 = ladder_base(&ctx, &chip, l, s)?;
+                let p1 = ladder_base(&ctx, &chip, l, s)?;
+                let s0: AssignedScalarOfNativeCurve<C> = chip.assign_fixed(l, c0)?;
+                let s1: AssignedScalarOfNativeCurve<C> = chip.assign_fixed(l, c1)?;
+                let n = if s.p_bool("twice") { 2 } else { 1 };
+                let mut rs = vec![];
+                for _ in 0..n {
+                    rs.push(chip.msm(l, &[s0.clone(), s1.clone()], &[p0.clone(), p1.clone()])?);
+                }
+                for r in rs.iter() {
+                    ctx.out_point(&chip, l, r)?;
+                }
+            }
             op => panic!("unknown edwards op {op}"),
         }
         chip.load_from_scratch(&mut layouter)
     }
+}
+
+// ---- helpers of the ladder shapes (appended; part C06_M) ------------------------------------------
+use midnight_circuits::{ecc::native::AssignedScalarOfNativeCurve, types::AssignedByte};
+
+/// Base point of a ladder shape: `p.free=1` -> two plain public-input cells (the real
+/// `PublicInputInstructions::<AssignedNativePoint>::assign_as_public_input`, which adds no constraint on
+/// the coordinates), logged as inputs in instance-row order; otherwise the real `assign`.
+fn ladder_base(ctx: &Ctx<'_>, chip: &Chip, l: &mut impl Layouter<F>, s: &Spec) -> Result<Pt, Error> {
+    if !s.p_bool("free") {
+        return ctx.in_point(chip, l);
+    }
+    let k = scalar_of(&ctx.take());
+    let p: JubjubSubgroup = JubjubSubgroup::generator() * k;
+    let ap: Pt = chip.assign_as_public_input(l, Value::known(p))?;
+    chip.x_coordinate(&ap).value().map(|v| ctx.io.0.borrow_mut().push((true, *v)));
+    chip.y_coordinate(&ap).value().map(|v| ctx.io.0.borrow_mut().push((true, *v)));
+    Ok(ap)
 }
